@@ -130,6 +130,12 @@ def judge(family, case, rec):
         rec.violation("C19:unexpected-fit", family, case, "%d forest fits that belong to no (non-source node, environment) pair" % len(unmatched))
         return
 
+    if case["k"] % 2:
+        # the caller re-uses / rescales his own arrays after fitting: the network must keep working on what it was fitted to
+        for a in data:
+            a[...] = a * 0.5 - 3.0
+        rec.count("history:caller-overwrote-data-after-construction")
+
     def run_sample(n, rs):
         start = len(backend.LOG)
         res = net.sample(n, random_state=rs) if rs is not None else net.sample(n)
@@ -139,7 +145,7 @@ def judge(family, case, rec):
     forms = [("None", None, list(Ns)), ("int", 25, [25] * e), ("list", [int(v) for v in rng.integers(5, 40, e)], None)]
     forms[2] = ("list", forms[2][1], list(forms[2][1]))
     for (fname, n, sizes) in forms:
-        for rs in (None, case["rs"]):
+        for rs in (None, case["rs"] if case["k"] % 5 else np.int64(case["rs"])):
             rec.count("sample-calls")
             rec.count("n:" + fname)
             try:
@@ -183,6 +189,16 @@ def judge(family, case, rec):
     if rs == 0:
         rec.count("repro:seed0")
     try:
+        if case["k"] % 5 == 0:
+            rs_np = np.int64(rs)
+            r1, r2 = net.sample(12, random_state=rs_np), net.sample(12, random_state=rs)
+            np.random.normal(size=3)
+            r3 = net.sample(12, random_state=rs_np)
+            rec.count("repro:numpy-integer-seed")
+            if not all(np.array_equal(a, b) and np.array_equal(a, c) for a, b, c in zip(r1, r2, r3)):
+                rec.violation("C19:numpy-integer-seed-not-honoured", family, case,
+                              "random_state=np.int64(%d) does not reproduce the sample of random_state=%d / of itself" % (rs, rs))
+                return
         ref = net.sample(30, random_state=rs)
         for t in range(3):
             hist = [_perturb(rng) for _ in range(int(rng.integers(1, 4)))]
@@ -203,7 +219,7 @@ def judge(family, case, rec):
     except Exception as ex:
         rec.exception_violation("C19:sample-exception", family, case, "sample raised during the reproducibility history", ex)
         return
-    if any(not np.array_equal(a, b) for a, b in zip(data, data0)):
+    if case["k"] % 2 == 0 and any(not np.array_equal(a, b) for a, b in zip(data, data0)):
         rec.violation("C19:data-mutated", family, case, "the caller's data arrays were modified")
 
 
